@@ -55,6 +55,8 @@ inductive PC where
   | unborn
   /-- `DoraThread::new(rt, Parked)` done by the parent, not yet running -/
   | embryo
+  /-- registered (`add_thread` pushed it), OS thread not spawned yet -/
+  | ready
   /-- mutator region -/
   | mut
   /-- poll: before the load of the own state byte -/
@@ -304,13 +306,13 @@ def stepAt (s : State) (t : Nat) (x : Thr) : PC → Act → Except String State
   -- `safepoint_slow`: swap(Safepoint); assert_eq!(state, SafepointRequested)
   | .pollSlow, .swapS u rd wr =>
       if u = t ∧ rd = x.st ∧ wr = 4 then
-        .ok ((s.setSt t 4).setPc t (if rd = 2 then .spB0 else .panicked))
+        .ok (if rd = 2 then (s.setSt t 4).setPc t .spB0 else s.setPc t .panicked)
       else .error "pollSlow/swapS: not swap(own state, Safepoint), or value differs"
   -- `wait_in_safepoint`
   | .spB0, .lockB =>
       if s.lockB = none then
         (if s.armed then .ok ({ s with lockB := some t, stopped := s.stopped + 1 }.setPc t .spB1)
-         else .ok ({ s with lockB := some t }.setPc t .panicked))
+         else .ok (s.setPc t .panicked))
       else .error "spB0/lockB: B is held"
   | .spB1, .n1N w =>
       match w with
@@ -355,7 +357,7 @@ def stepAt (s : State) (t : Nat) (x : Thr) : PC → Act → Except String State
   | .parkB0 r, .lockB =>
       if s.lockB = none then
         (if s.armed then .ok ({ s with lockB := some t, stopped := s.stopped + 1 }.setPc t (.parkB1 r))
-         else .ok ({ s with lockB := some t }.setPc t .panicked))
+         else .ok (s.setPc t .panicked))
       else .error "parkB0/lockB: B is held"
   | .parkB1 r, .n1N w =>
       match w with
@@ -401,18 +403,18 @@ def stepAt (s : State) (t : Nat) (x : Thr) : PC → Act → Except String State
       match s.thr[u]? with
       | some y =>
         if y.pc = .unborn ∧ rd = y.st then
-          .ok ((s.setPc u .embryo).setPc t (if isParkedSt rd then .ps0 (.add u) else .panicked))
+          .ok (if isParkedSt rd then (s.setPc u .embryo).setPc t (.ps0 (.add u)) else s.setPc t .panicked)
         else .error "addA/loadS: the new thread's slot is in use, or value differs"
       | none => .error "addA/loadS: no such slot"
   | .addL0 u, .lockL =>
       if s.lockL = none then .ok ({ s with lockL := some t }.setPc t (.addL1 u)) else .error "addL0/lockL: L is held"
   | .addL1 u, .storeI v wr =>
       if v = u ∧ wr = s.list.length then
-        .ok (({ s with list := s.list ++ [u] }.setIdx u wr).setPc t (.addL2 u))
+        .ok ((({ s with list := s.list ++ [u] }.setIdx u wr).setPc u .ready).setPc t (.addL2 u))
       else .error "addL1/storeI: not set_index_in_thread_list(len) of the new thread"
   | .addL2 u, .unlockL => .ok ({ s with lockL := none }.setPc t (.unp0 (.scope (.add u))))
   | .spawnGo u, .spawn v =>
-      if v = u ∧ s.pcOf u = some .embryo then .ok ((s.setPc u (.unp0 .start)).setPc t .mut)
+      if v = u ∧ s.pcOf u = some .ready then .ok ((s.setPc u (.unp0 .start)).setPc t .mut)
       else .error "spawnGo/spawn: not the thread that was added"
   -- ───────── stop_the_world
   | .stwL0, .lockL =>
@@ -420,18 +422,18 @@ def stepAt (s : State) (t : Nat) (x : Thr) : PC → Act → Except String State
   -- single-thread shortcut: assert_eq!(current_thread(), threads.first()); set_state(Safepoint)
   | .stwL1, .swapRT rd wr =>
       if s.list.length = 1 ∧ rd = s.rt ∧ wr = 1 then
-        .ok ({ s with rt := 1 }.setPc t (if s.list[0]? = some t ∧ rd = 0 then .opS else .panicked))
+        .ok (if s.list[0]? = some t ∧ rd = 0 then { s with rt := 1 }.setPc t .opS else s.setPc t .panicked)
       else .error "stwL1/swapRT: more than one thread registered, or value differs"
   | .opS, .opTouch => .ok s
   | .opS, .swapRT rd wr =>
-      if rd = s.rt ∧ wr = 0 then .ok ({ s with rt := 0, ops := s.ops + 1 }.setPc t (if rd = 1 then .stwUL else .panicked))
+      if rd = s.rt ∧ wr = 0 then .ok (if rd = 1 then { s with rt := 0, ops := s.ops + 1 }.setPc t .stwUL else s.setPc t .panicked)
       else .error "opS/swapRT: value differs"
   -- `stop_threads`: `barrier.arm()`
   | .stwL1, .lockB =>
       if s.list.length ≠ 1 ∧ s.lockB = none then
         (if ¬ s.armed ∧ t ∈ s.list then
           .ok ({ s with lockB := some t, armed := true, stopped := 0, phase := .req 0 0 }.setPc t .armB)
-         else .ok ({ s with lockB := some t }.setPc t .panicked))
+         else .ok (s.setPc t .panicked))
       else .error "stwL1/lockB: exactly one thread registered, or B is held"
   | .armB, .unlockB => .ok ({ s with lockB := none }.setPc t (.fo 0 0))
   | .fo k r, .forS u rd wr =>
@@ -440,34 +442,32 @@ def stepAt (s : State) (t : Nat) (x : Thr) : PC → Act → Except String State
         if v = u ∧ rd = y.st ∧ wr = rd ||| 2 then
           (if rd = 0 then .ok ({ s with phase := .req (k + 1) (r + 1) }.setSt u wr |>.setPc t (.fo (k + 1) (r + 1)))
            else if rd = 1 then .ok ({ s with phase := .req (k + 1) r }.setSt u wr |>.setPc t (.fo (k + 1) r))
-           else .ok ((s.setSt u wr).setPc t .panicked))
+           else .ok (s.setPc t .panicked))
         else .error "fo/forS: not fetch_or(state of list[k], 2), or value differs"
       | _, _ => .error "fo/forS: the loop is over, or no such thread"
   -- `wait_until_threads_stopped(r)`
   | .fo k r, .lockB =>
       if k = s.list.length ∧ s.lockB = none then
-        .ok ({ s with lockB := some t }.setPc t (if s.armed then .wuB1 r else .panicked))
+        .ok (if s.armed then { s with lockB := some t }.setPc t (.wuB1 r) else s.setPc t .panicked)
       else .error "fo/lockB: the loop is not over, or B is held"
   | .wuB1 r, .waitN =>
       if s.stopped < r then .ok ({ s with lockB := none }.setPc t (.wuWait r))
       else .error "wuB1/waitN: stopped >= running, the code leaves the loop"
   | .wuB1 r, .unlockB =>
       if ¬ s.stopped < r then
-        .ok ({ s with lockB := none, phase := if s.stopped = r then .oper else s.phase }.setPc t
-              (if s.stopped = r then .rtS1 else .panicked))
+        .ok (if s.stopped = r then { s with lockB := none, phase := .oper }.setPc t .rtS1 else s.setPc t .panicked)
       else .error "wuB1/unlockB: stopped < running, the code waits"
   | .wuWait r, .spur => .ok (s.setPc t (.wuWoken r))
   | .wuWoken r, .relockB =>
       if s.lockB = none then .ok ({ s with lockB := some t }.setPc t (.wuB1 r)) else .error "wuWoken/relockB: B is held"
   -- `invoke_safepoint_operation`
   | .rtS1, .swapRT rd wr =>
-      if rd = s.rt ∧ wr = 1 then .ok ({ s with rt := 1 }.setPc t (if rd = 0 then .op else .panicked))
+      if rd = s.rt ∧ wr = 1 then .ok (if rd = 0 then { s with rt := 1 }.setPc t .op else s.setPc t .panicked)
       else .error "rtS1/swapRT: value differs"
   | .op, .opTouch => .ok s
   | .op, .swapRT rd wr =>
       if rd = s.rt ∧ wr = 0 then
-        .ok ({ s with rt := 0, ops := s.ops + 1, phase := if rd = 1 then .res 0 else s.phase }.setPc t
-              (if rd = 1 then .rs 0 else .panicked))
+        .ok (if rd = 1 then { s with rt := 0, ops := s.ops + 1, phase := .res 0 }.setPc t (.rs 0) else s.setPc t .panicked)
       else .error "op/swapRT: value differs"
   -- `resume_threads`
   | .rs k, .swapS u rd wr =>
@@ -475,14 +475,14 @@ def stepAt (s : State) (t : Nat) (x : Thr) : PC → Act → Except String State
       | some v, some y =>
         if v = u ∧ rd = y.st ∧ wr = 1 then
           (if rd = 4 ∨ rd = 3 then .ok ({ s with phase := .res (k + 1) }.setSt u 1 |>.setPc t (.rs (k + 1)))
-           else .ok ((s.setSt u 1).setPc t .panicked))
+           else .ok (s.setPc t .panicked))
         else .error "rs/swapS: not swap(state of list[k], Parked), or value differs"
       | _, _ => .error "rs/swapS: the loop is over, or no such thread"
   -- `disarm`
   | .rs k, .lockB =>
       if k = s.list.length ∧ s.lockB = none then
         (if s.armed then .ok ({ s with lockB := some t, armed := false, phase := .idle }.setPc t .disB1)
-         else .ok ({ s with lockB := some t }.setPc t .panicked))
+         else .ok (s.setPc t .panicked))
       else .error "rs/lockB: the loop is not over, or B is held"
   | .disB1, .naW k =>
       if k = s.thr.countP isWaitW then .ok ({ s with thr := s.thr.map wakeW }.setPc t .disB2)
